@@ -483,13 +483,9 @@ func exercise[T any](c *chk, m fpgo.MaybeDef[T], v, fb T, p params) {
 			return ret
 		}
 		got := m.FlatMap(f)
-		if ab && len(args) == 0 {
-			// NA: an absent receiver short-circuiting (Nothing >>= f = Nothing) is not excluded by the statement
-			if got == nil || !got.IsNil() {
-				c.fail("C01/FlatMap", "absent receiver: callback not run and result is not absent")
-			}
-			return
-		}
+		// "FlatMap(f) is f applied to the wrapped value", with left identity: also for an absent value the
+		// callback runs (once, with an absent argument) and its result is the result — Just(nil).FlatMap(f)
+		// is f(nil), not a short-circuited None (f may well map nil to something present).
 		if len(args) != 1 {
 			c.fail("C01/FlatMap", "callback ran %d times, want 1", len(args))
 			return
